@@ -45,6 +45,47 @@ type report struct {
 	Samples     []string       `json:"samples"`
 }
 
+// burstSizes: numbers of messages outstanding on one subscriber, swept over powers of two +-1 (any internal cap
+// on pending deliveries / queue length is most likely a power of two), quick up to ~10000, thorough 131073.
+// firstLife: in half of the rounds the publication has been used and closed before: a few subscribers, a few
+// messages, Publication.Close().  Nothing of that may leak into the second life (ids, counters, contexts,
+// caches).  Returns the old handles.
+func firstLife(rng *rand.Rand, pub *publisher.Publication[int]) []*publisher.Subscriber[int] {
+	if rng.Intn(2) == 0 {
+		return nil
+	}
+	var hs []*publisher.Subscriber[int]
+	n := 1 + rng.Intn(4)
+	for i := 0; i < n; i++ {
+		hs = append(hs, pub.Subscribe(rng.Intn(3), publisher.WithTimeout[int](60*time.Second)))
+	}
+	for m := -5; m < 0; m++ {
+		pub.Publish(m)
+	}
+	if rng.Intn(3) == 0 {
+		hs[0].Close()
+	}
+	pub.Close()
+	for _, h := range hs { // read what was buffered, see "closed"
+		for range h.Receive() {
+		}
+	}
+	waitNoGoroutines(10 * time.Second)
+	return hs
+}
+
+func burstSizes(tier string, seed int64) []int {
+	sizes := []int{1023, 1025, 2049, 4097, 8193, 9000 + int(seed%7)*150}
+	if tier == "thorough" {
+		sizes = nil
+		for k := 8; k <= 17; k++ {
+			sizes = append(sizes, 1<<k-1, 1<<k+1)
+		}
+		sizes = append(sizes, 100000)
+	}
+	return sizes
+}
+
 func shuffleOpts(rng *rand.Rand, opts []publisher.SubscriberOption[int]) {
 	rng.Shuffle(len(opts), func(i, j int) { opts[i], opts[j] = opts[j], opts[i] })
 }
@@ -206,6 +247,7 @@ func roundC06(rng *rand.Rand, rep *report, round int, seed int64, sz *sizes) {
 		S, P, N = sz.S, sz.P, sz.N
 	}
 	pub := publisher.NewPublication[int]()
+	oldHandles := firstLife(rng, pub)
 	cfgs := make([]subCfg, S)
 	subs := make([]*publisher.Subscriber[int], S)
 	got := make([][]int, S)
@@ -290,6 +332,11 @@ func roundC06(rng *rand.Rand, rep *report, round int, seed int64, sz *sizes) {
 		if !cfgs[i].late {
 			startSub(i)
 		}
+	}
+	// handles from the publication's first life are closed now (typical `defer sub.Close()` after pub.Close()):
+	// must be a no-op for the subscribers of the second life
+	for _, h := range oldHandles {
+		h.Close()
 	}
 	var pwg sync.WaitGroup
 	var published sync.Map
@@ -436,6 +483,7 @@ func roundC15(rng *rand.Rand, rep *report, round int, seed int64) {
 	P := 1 + rng.Intn(4)
 	N := 5 + rng.Intn(40)
 	pub := publisher.NewPublication[int]()
+	oldHandles := firstLife(rng, pub)
 	type sst struct {
 		cfg      subCfg
 		tmo      time.Duration
@@ -496,7 +544,10 @@ func roundC15(rng *rand.Rand, rep *report, round int, seed int64) {
 				defer rwg.Done()
 				for {
 					select {
-					case v := <-s.sub.Receive():
+					case v, ok := <-s.sub.Receive():
+						if !ok {
+							return // closed although nobody closed it: the accounting below reports what is missing
+						}
 						s.got = append(s.got, v)
 						if s.mode == 1 {
 							time.Sleep(s.pause)
@@ -507,6 +558,9 @@ func roundC15(rng *rand.Rand, rep *report, round int, seed int64) {
 				}
 			}()
 		}
+	}
+	for _, h := range oldHandles { // stale handles of the first life: closing them must not touch the new subscribers
+		h.Close()
 	}
 	var pwg sync.WaitGroup
 	var maxLat atomic.Int64
@@ -555,9 +609,11 @@ func roundC15(rng *rand.Rand, rep *report, round int, seed int64) {
 			}
 			for {
 				select {
-				case v := <-s.sub.Receive():
-					s.got = append(s.got, v)
-					continue
+				case v, ok := <-s.sub.Receive():
+					if ok {
+						s.got = append(s.got, v)
+						continue
+					}
 				default:
 				}
 				break
@@ -580,9 +636,11 @@ func roundC15(rng *rand.Rand, rep *report, round int, seed int64) {
 	for i, s := range subs {
 		for {
 			select {
-			case v := <-s.sub.Receive():
-				s.got = append(s.got, v)
-				continue
+			case v, ok := <-s.sub.Receive():
+				if ok {
+					s.got = append(s.got, v)
+					continue
+				}
 			default:
 			}
 			break
@@ -733,7 +791,7 @@ func burstC15(rng *rand.Rand, rep *report, trials int, seed int64) {
 // Publish stays fast, nothing is given up before the subscriber's own timeout (OnTimeout must not run at all),
 // and once the subscribers start receiving every single message arrives.  Crosses any plausible internal limit
 // on pending deliveries per subscriber.
-func bigBurstC15(rng *rand.Rand, rep *report, N int, seed int64) {
+func bigBurstC15(rng *rand.Rand, rep *report, N int, seed int64, prop string) {
 	P := 1 + rng.Intn(4)
 	pub := publisher.NewPublication[int]()
 	type bs struct {
@@ -776,12 +834,12 @@ func bigBurstC15(rng *rand.Rand, rep *report, N int, seed int64) {
 	case <-done:
 	case <-time.After(30 * time.Second):
 		rep.Failures = append(rep.Failures, failure{"Publish blocks when subscribers do not receive",
-			fmt.Sprintf("big burst: %d messages to 3 never-receiving subscribers not published after 30s", P*per), "c15-stress:publish-blocks", 0, seed})
+			fmt.Sprintf("big burst: %d messages to 3 never-receiving subscribers not published after 30s", P*per), prop+"-stress:publish-blocks", 0, seed})
 		return
 	}
 	if time.Duration(maxLat.Load()) > 2*time.Second {
 		rep.Failures = append(rep.Failures, failure{"Publish blocks when subscribers do not receive",
-			fmt.Sprintf("big burst: slowest Publish call took %v", time.Duration(maxLat.Load())), "c15-stress:publish-blocks", 0, seed})
+			fmt.Sprintf("big burst: slowest Publish call took %v", time.Duration(maxLat.Load())), prop+"-stress:publish-blocks", 0, seed})
 		return
 	}
 	total := P * per
@@ -799,7 +857,7 @@ func bigBurstC15(rng *rand.Rand, rep *report, N int, seed int64) {
 			case v := <-b.sub.Receive():
 				if seen[v] {
 					rep.Failures = append(rep.Failures, failure{"a message reached a subscriber more than once",
-						fmt.Sprintf("big burst: subscriber %d received %d twice", i, v), "c15-stress:accounting", 0, seed})
+						fmt.Sprintf("big burst: subscriber %d received %d twice", i, v), prop+"-stress:accounting", 0, seed})
 					return
 				}
 				seen[v] = true
@@ -812,20 +870,20 @@ func bigBurstC15(rng *rand.Rand, rep *report, N int, seed int64) {
 		if e := b.early.Load(); e > 0 {
 			rep.Failures = append(rep.Failures, failure{"OnTimeout fired before the subscriber's own timeout",
 				fmt.Sprintf("big burst: %d messages outstanding on subscriber %d (buffer %d, timeout 60s): %d were given up (OnTimeout) within seconds; %d of %d arrived",
-					total, i, b.cap, e, len(seen), want), "c15-stress:early-timeout", 0, seed})
+					total, i, b.cap, e, len(seen), want), prop+"-stress:early-timeout", 0, seed})
 			return
 		}
 		if len(seen) != want {
 			rep.Failures = append(rep.Failures, failure{"a (message, subscriber) pair is not accounted for exactly once",
 				fmt.Sprintf("big burst: subscriber %d (buffer %d, timeout 60s) received %d of %d messages once it started receiving, no OnTimeout", i, b.cap, len(seen), want),
-				"c15-stress:accounting", 0, seed})
+				prop+"-stress:accounting", 0, seed})
 			return
 		}
 		rep.Evaluations += want
 	}
 	if left := waitNoGoroutines(10 * time.Second); left != 0 {
 		rep.Failures = append(rep.Failures, failure{"delivery goroutines remain after everything was delivered",
-			fmt.Sprintf("big burst: %d goroutines of the package left", left), "c15-stress:leak", 0, seed})
+			fmt.Sprintf("big burst: %d goroutines of the package left", left), prop+"-stress:leak", 0, seed})
 		return
 	}
 	pub.Close()
@@ -956,6 +1014,101 @@ func hotCloseChild(seed int64, trials int, prop string) {
 	}
 	res.Hist["hot-close-trials"] = trials
 	res.Sample = fmt.Sprintf("%d trials: Close (1-2 callers, subscriber or publication) while 8 goroutines publish to a draining subscriber (buffer 0/1/64, timeout 1min/0/-1s)", trials)
+	out, _ := json.Marshal(res)
+	fmt.Println(string(out))
+}
+
+// ---------- Subscribe racing Publication.Close (consumers that re-subscribe when their channel closes) ----------
+
+// resubChild: K consumers range over their subscriber's channel and re-subscribe (once) the moment it is closed;
+// the main goroutine calls Publication.Close, so the re-subscriptions overlap the Close that is still shutting
+// down the remaining subscribers.  Every subscriber created that way must afterwards be either closed (that Close
+// got it) or fully alive: a message published now reaches it, and its own Close closes its channel.
+func resubChild(seed int64, trials int) {
+	rng := rand.New(rand.NewSource(seed))
+	res := c10result{Hist: map[string]int{}}
+	fail := func(what, detail, sig string) {
+		res.Failures = append(res.Failures, failure{what, detail, sig, 0, seed})
+		out, _ := json.Marshal(res)
+		fmt.Println(string(out))
+		os.Exit(0)
+	}
+	closedByClose, alive := 0, 0
+	for trial := 0; trial < trials; trial++ {
+		pub := publisher.NewPublication[int]()
+		K := 4 + rng.Intn(29)
+		fresh := make([]*publisher.Subscriber[int], K)
+		var cons sync.WaitGroup
+		for i := 0; i < K; i++ {
+			s := pub.Subscribe(rng.Intn(3), publisher.WithTimeout[int](60*time.Second))
+			cons.Add(1)
+			go func() {
+				defer cons.Done()
+				for range s.Receive() {
+				}
+				fresh[i] = pub.Subscribe(2, publisher.WithTimeout[int](60*time.Second)) // re-subscribe
+			}()
+		}
+		pub.Publish(1)
+		time.Sleep(time.Duration(rng.Intn(200)) * time.Microsecond)
+		cdone := make(chan struct{})
+		go func() { pub.Close(); close(cdone) }()
+		select {
+		case <-cdone:
+		case <-time.After(10 * time.Second):
+			fail("Close does not return (deadlock)", fmt.Sprintf("trial %d: Publication.Close with %d re-subscribing consumers not back after 10s:\n%s", trial, K, pkgStacks(4000)), "c10-stress:close-hangs")
+		}
+		wdone := make(chan struct{})
+		go func() { cons.Wait(); close(wdone) }()
+		select {
+		case <-wdone:
+		case <-time.After(10 * time.Second):
+			fail("a closed subscriber's channel never reports closed", fmt.Sprintf("trial %d: after Publication.Close some of the %d consumers never saw their channel closed", trial, K), "c10-stress:not-closed")
+		}
+		waitNoGoroutines(10 * time.Second)
+		marker := 1000 + trial
+		pub.Publish(marker)
+		for i, f := range fresh {
+			// either that Close got the new subscriber (channel closed, nothing else) ...
+			got, isClosed := 0, false
+			select {
+			case v, ok := <-f.Receive():
+				if !ok {
+					isClosed = true
+				} else {
+					got = v
+				}
+			case <-time.After(10 * time.Second):
+				fail("a subscriber created while Publication.Close was running is neither closed nor subscribed",
+					fmt.Sprintf("trial %d: consumer %d of %d re-subscribed when its channel closed (during Publication.Close); the new subscriber's channel is not closed, and Publish(%d) after the Close did not reach it within 10s", trial, i, K, marker),
+					"c10-stress:zombie-subscriber")
+			}
+			if isClosed {
+				closedByClose++
+				continue
+			}
+			if got != marker {
+				fail("a subscriber received a value that was never published to it", fmt.Sprintf("trial %d: new subscriber %d got %d, want %d", trial, i, got, marker), "c10-stress:foreign")
+			}
+			// ... or it is alive: its own Close closes its channel
+			f.Close()
+			select {
+			case _, ok := <-f.Receive():
+				if ok {
+					fail("something was delivered after the close", fmt.Sprintf("trial %d subscriber %d", trial, i), "c10-stress:after-close")
+				}
+			case <-time.After(10 * time.Second):
+				fail("a closed subscriber's channel never reports closed",
+					fmt.Sprintf("trial %d: subscriber %d was created while Publication.Close was running; it received Publish(%d), but its own Close() did not close its channel within 10s", trial, i, marker), "c10-stress:not-closed")
+			}
+			alive++
+		}
+		res.Evals += K
+	}
+	res.Hist["resubscribe-trials"] = trials
+	res.Hist["resubscribed-closed-by-that-Close"] = closedByClose
+	res.Hist["resubscribed-alive"] = alive
+	res.Sample = fmt.Sprintf("%d trials: 4-32 consumers re-subscribe when their channel closes while Publication.Close is running (%d new subscribers closed by it, %d alive)", trials, closedByClose, alive)
 	out, _ := json.Marshal(res)
 	fmt.Println(string(out))
 }
@@ -1370,6 +1523,10 @@ func main() {
 		c10child(*seed)
 		return
 	}
+	if *mode == "resubchild" {
+		resubChild(*seed, *rounds)
+		return
+	}
 	if *mode == "hotclosechild" {
 		hotCloseChild(*seed, *rounds, *propFlag)
 		return
@@ -1412,13 +1569,16 @@ func main() {
 			}
 			burstC15(rand.New(rand.NewSource(*roundSeed)), rep, 150, *roundSeed)
 			if len(rep.Failures) == 0 {
-				bigBurstC15(rand.New(rand.NewSource(*roundSeed)), rep, 4000, *roundSeed)
+				bigBurstC15(rand.New(rand.NewSource(*roundSeed)), rep, 4500, *roundSeed, *mode)
 			}
 			if len(rep.Failures) == 0 {
 				roundC15(rng, rep, 0, *roundSeed)
 			}
 		case "c10":
 			childRound(self, rep, 0, *roundSeed, "-mode", "hotclosechild", "-prop", "c10", "-seed", fmt.Sprint(*roundSeed), "-rounds", "150")
+			if len(rep.Failures) == 0 {
+				childRound(self, rep, 0, *roundSeed, "-mode", "resubchild", "-seed", fmt.Sprint(*roundSeed), "-rounds", "320")
+			}
 			if len(rep.Failures) == 0 {
 				childRound(self, rep, 0, *roundSeed, "-mode", "c10burstchild", "-seed", fmt.Sprint(*roundSeed), "-rounds", "4000")
 			}
@@ -1451,13 +1611,17 @@ func main() {
 		}
 		burstC15(rand.New(rand.NewSource(*seed*7919+1)), rep, trials, *seed*7919+1)
 		// pending deliveries per subscriber far above any plausible internal limit
-		bigs := []int{3000 + int(*seed%5)*500}
-		if *tier == "thorough" {
-			bigs = []int{1000, 2000, 4000, 8000, 16000, 32000, 5000, 3000}
-		}
-		for i, n := range bigs {
+		for i, n := range burstSizes(*tier, *seed) {
 			if len(rep.Failures) == 0 {
-				bigBurstC15(rand.New(rand.NewSource(*seed*6700417+int64(i))), rep, n, *seed*6700417+int64(i))
+				bigBurstC15(rand.New(rand.NewSource(*seed*6700417+int64(i))), rep, n, *seed*6700417+int64(i), "c15")
+			}
+		}
+	}
+	if *mode == "c06" && *roundSeed == 0 && len(rep.Failures) == 0 {
+		// the same bursts for C06: everything outstanding on subscribers that start receiving later must arrive once
+		for i, n := range burstSizes(*tier, *seed) {
+			if len(rep.Failures) == 0 {
+				bigBurstC15(rand.New(rand.NewSource(*seed*6700417+int64(i))), rep, n, *seed*6700417+int64(i), "c06")
 			}
 		}
 	}
@@ -1479,6 +1643,10 @@ func main() {
 				local := &report{Histogram: map[string]int{}}
 				hs := *seed*611953 + int64(k) + 1
 				childRound(self, local, -10-k, hs, "-mode", "hotclosechild", "-prop", *mode, "-seed", fmt.Sprint(hs), "-rounds", fmt.Sprint(tr))
+				if k == 0 && *mode == "c10" && len(local.Failures) == 0 {
+					// Subscribe racing Publication.Close
+					childRound(self, local, -20, hs, "-mode", "resubchild", "-seed", fmt.Sprint(hs), "-rounds", fmt.Sprint(tr*4))
+				}
 				mu.Lock()
 				rep.Failures = append(rep.Failures, local.Failures...)
 				rep.Evaluations += local.Evaluations
